@@ -248,7 +248,10 @@ func checkC10(e *Engine, r *Report) {
 		okBal := derives(gb.Common().Args[1], fromP) && denomOK(gb.Common().Args[2])
 		var gSuf []Guard
 		for _, g := range bigCmpGuards(transfer, "ge", func(v ssa.Value) bool { return sliceFrom(v).HasValue(gb.(ssa.Value)) }, func(v ssa.Value) bool { return resolveLocal(v) == amtP }) {
-			if failEdgeReturnsError(transfer, g, func(i ssa.Instruction) bool { c, ok := i.(ssa.CallInstruction); return ok && isBankCall(c, bankMutators) }) {
+			if failEdgeReturnsError(transfer, g, func(i ssa.Instruction) bool {
+				c, ok := i.(ssa.CallInstruction)
+				return ok && isBankCall(c, bankMutators)
+			}) {
 				gSuf = append(gSuf, g)
 			}
 		}
